@@ -186,6 +186,10 @@ func (c *Ctx) declareFun(name string, args []Sort, ret Sort) {
 		as = append(as, string(a))
 	}
 	c.decls = append(c.decls, fmt.Sprintf("(declare-fun %s (%s) %s)", name, strings.Join(as, " "), ret))
+	if name == "gstr.cat" {
+		// the only interpreted fact about concatenation: lengths add up
+		c.asserts = append(c.asserts, &Assertion{Seq: 0, Always: true, Text: "(forall ((ca Str) (cb Str)) (! (= (gstr.len (gstr.cat ca cb)) (+ (gstr.len ca) (gstr.len cb))) :pattern ((gstr.cat ca cb))))"})
+	}
 }
 
 func (c *Ctx) fresh(hint string, sort Sort) *Term {
